@@ -57,7 +57,8 @@ Wrap(f, b) ==
 Ctl1 == {Wrap(f, b) : f \in Forms, b \in Body0}
 Pre == {<<>>, <<"1">>} \cup (IF Tier = "quick" THEN {} ELSE {<<"exit">>})
 Post == {<<>>, <<"{", "2", "}">>, <<"exit">>}
-Outer == {"none"} \cup (IF Tier = "quick" THEN {"exec", "repeat2", "loop", "forall"} ELSE Forms)
+Outer == {"none"} \cup (IF Tier = "quick" THEN {"exec", "repeat2", "loop", "forall"}
+                        ELSE {"exec", "repeat2", "loop", "forall", "for", "ift", "ifelsef", "defp", "lit", "bindexec"})
 
 \* ---- dictionary stack lookup family
 LookAtoms == { <<"/x", "1", "def">>, <<"/x", "2", "def">>, <<"3", "dict", "begin">>, <<"end">>, <<"x">>,
